@@ -141,6 +141,7 @@ def gen_proof_history(r, quick, nm):
     script.append(("block", [], {}))
     nexti = {}
     pending_receipts = []
+    ledger = r.choice(["", "complex"])
     for _ in range(r.randrange(2, 5 if quick else 8)):
         if r.random() < 0.25:
             # rule / registration changes take effect for the next block
@@ -149,16 +150,26 @@ def gen_proof_history(r, quick, nm):
                              {"op": "seed_chain", "chain": ch, "rule": "fabric"}, {"op": "seed_chain", "chain": ch, "rule": "happy", "rstatus": "logouting"},
                              {"op": "seed_chain", "chain": ch, "rule": "none"}, {"op": "drop_chain", "chain": ch}])
             script.append(("pre", step))
+            if ledger == "complex":
+                # the pool reads the COMMITTED state (a snapshot): records written between blocks by the driver
+                # are committed by an empty block first, as a block of registration transactions would
+                script.append(("block", [], {}))
+            if r.random() < 0.3:
+                script.append(("block", [], {}))
+                script.append(("restart",))
         ops = []
+        new_pending = []
         for _ in range(r.randrange(1, 5)):
             frm = "u:%d" % r.randrange(4)
             k = r.random()
-            if k < 0.15 and pending_receipts:
-                src, idx = pending_receipts.pop(0)
-                pk = r.choice(["ok", "ok", "absent", "mismatch"])
-                ops.append(ibtp_op(nm, frm, src, idx, pk, typ=1, handles=True))
-                if pk != "ok":
-                    pending_receipts.insert(0, (src, idx))
+            if k < 0.2 and pending_receipts:
+                # a forged RECEIPT for a request that is still pending (status BEGIN, id on its timeout list): the proof
+                # check fails, so nothing of the pending request - its record, the timeout list - may change
+                req = r.choice(pending_receipts)
+                rop = ibtp_op(nm, frm, req["tx"]["ibtp"]["from"].split(":")[1], 0, r.choice(["absent", "mismatch"]), typ=1, handles=True)
+                rop["receipt_of"] = req
+                rop["tag"] = "forged_receipt_" + rop["pdesc"]["proof"]["kind"]
+                ops.append(rop)
                 continue
             src = r.choice(list(CHAINS.keys()) + ["chainU", "chainA", "chainA"])
             if src == "chainB":
@@ -175,7 +186,10 @@ def gen_proof_history(r, quick, nm):
                 op["body"] = ("ibtp", ("touch", X.CID["store"], ("fail", False)))
             ops.append(op)
             op["advance"] = (src, idx)
+            if pk == "ok" and not op["tx"].get("to"):
+                new_pending.append(op)
         script.append(("block", ops, {}))
+        pending_receipts += new_pending
         # bookkeeping of expected indexes happens in build (needs the verdicts); approximate here: a request advances
         # the index when its proof is ok and the rule of the chain accepts (known statically for the unchanged chains)
         for op in ops:
@@ -183,7 +197,42 @@ def gen_proof_history(r, quick, nm):
             if adv and op["pdesc"]["proof"]["kind"] == "hex" and not op["tx"].get("to"):
                 op["maybe_advance"] = adv
         # resolved later in resolve_script
-    return dict(cfg=dict(admins=4, gas=0, audit=False, bal="1000000000000000", proof=r.choice(["", "parallel"])), script=script)
+    return dict(cfg=dict(admins=4, gas=0, audit=False, bal="1000000000000000", proof=r.choice(["", "parallel"]), ledger=ledger), script=script)
+
+
+def gen_rule_update(nm, ledger, change, restart):
+    """the binding of a chain changes AFTER the node has verified an IBTP of it: a junk proof that the old
+    binding accepted must be rejected from the next block on - with and without a restart in between, under
+    both state ledger types (with ledger.type = complex the pool's Copy() is a snapshot of the state)"""
+    script = [("pre", s) for s in X.SEED2] + [("pre", {"op": "fund", "acct": "u:%d" % u, "amt": "10000000000000"}) for u in range(2)]
+    script.append(("pre", {"op": "seed_chain", "chain": "1357", "relay": True, "trust": ["v:0", "v:1", "v:2", "v:3"]}))
+    script.append(("block", [], {}))
+
+    def remote(signers, idx):
+        i = X.ibtp(idx, frm="1357:chainX:svc1", to="1356:chainB:svc1", payload="content:foo")
+        pnum = nm.proof(True)
+        proof = {"kind": "multisig", "signers": signers, "status": 0}
+        return dict(tx={"t": "ibtp", "from": "u:1", "ibtp": i, "proof": proof}, frm="u:1",
+                    body=("ibtp", ("ev", [(cnum("chainB"), False)], ("done",))), invalid=False,
+                    tag="ibtp_remote", pdesc=dict(ibtp=i, pnum=pnum, proofhash=pnum, proof=proof))
+    first = [ibtp_op(nm, "u:0", "chainA", 1, "ok")]
+    if change == "trust":
+        first.append(remote(["v:0", "v:1"], 1))
+    script.append(("block", first, {}))
+    step = {"rule_fabric": {"op": "seed_chain", "chain": "chainA", "rule": "fabric"},
+            "rule_none": {"op": "seed_chain", "chain": "chainA", "rule": "none"},
+            "rule_logouting": {"op": "seed_chain", "chain": "chainA", "rule": "happy", "rstatus": "logouting"},
+            "unregistered": {"op": "drop_chain", "chain": "chainA"},
+            "trust": {"op": "seed_chain", "chain": "1357", "relay": True, "trust": ["v:4", "v:5", "v:6", "v:7"]}}[change]
+    script += [("pre", step), ("block", [], {})]
+    if restart:
+        script.append(("restart",))
+    for k in range(2):
+        ops = [remote(["v:0", "v:1"], 2)] if change == "trust" else [ibtp_op(nm, "u:0", "chainA", 2, "ok")]
+        if change not in ("unregistered",):
+            ops.append(ibtp_op(nm, "u:1", "chainB", 1 + k, "ok", dst="chainA"))
+        script.append(("block", ops, {}))
+    return dict(cfg=dict(admins=4, gas=0, audit=False, bal="1000000000000000", ledger=ledger), script=script, rule_update=[ledger, change, restart])
 
 
 def call_op(frm, contract, method, args, ok=True, tag="gov_call"):
@@ -191,25 +240,38 @@ def call_op(frm, contract, method, args, ok=True, tag="gov_call"):
                 body=("bvm", ("done",) if ok else ("fail", False)), invalid=False, tag=tag)
 
 
-def gen_governed(r, nm, variant):
+def gen_governed(r, nm, variant, ledger=""):
     """GOVERNED rule history: a chain whose master rule is not the first list entry (the accept-everything
     rule is always registered at index 0); its admin proposes UpdateMasterRule to that earlier rule through the
     real RuleManager, the governance admins reject (or approve); then a junk proof is checked directly and
     inside a block.  The rule list used by the model is read back from the real contract state."""
     master = r.choice(["fabric", "simfab"])
-    decision = variant
+    decision = "approve" if variant == "tighten" else variant
     script = [("pre", s) for s in X.SEED2]
-    script += [("pre", {"op": "seed_chain", "chain": "chainG", "rules": [["happy", "bindable", "no"], [master, "available", "master"]]}),
+    rules = [["happy", "bindable", "no"], [master, "available", "master"]]
+    target = HAPPY_ADDR
+    if variant == "tighten":
+        # the other direction: the accept-everything rule is the master, the stricter rule becomes the master through
+        # the real RuleManager / governance flow AFTER the node has verified IBTPs of the chain
+        rules = [[master, "bindable", "no"], ["happy", "available", "master"]]
+        target = {"fabric": "0x00000000000000000000000000000000000000a0", "simfab": "0x00000000000000000000000000000000000000a1"}[master]
+    script += [("pre", dict({"op": "seed_chain", "chain": "chainG", "rules": rules}, **({"ctype": "Fabric V1.4.3"} if variant == "tighten" else {}))),
                ("pre", {"op": "seed_service", "chain": "chainG", "svc": "svc1", "ordered": True}),
                ("pre", {"op": "seed_appchain_admin", "chain": "chainG", "acct": "u:5"}),
                ("pre", {"op": "fund", "acct": "u:5", "amt": "5"}), ("pre", {"op": "fund", "acct": "u:1", "amt": "5"}),
                ("block", [], {}), ("rules", "chainG")]
 
     def junk(tag):
-        return ibtp_op(nm, "u:1", "chainG", 1, "ok", handles=True)
+        return ibtp_op(nm, "u:1", "chainG", gi, "ok", handles=True)
+    gi = 1
     j = junk("before")
     script += [("check", dict(tx=j["tx"], pdesc=j["pdesc"]), None)]
-    script += [("block", [call_op("u:5", "rule", "UpdateMasterRule", [["s", "chainG"], ["s", HAPPY_ADDR], ["s", "r"]], tag="update_master_rule")], {}),
+    if variant == "tighten":
+        jb = junk("before_block")
+        jb["body"] = ("ibtp", ("ev", [(cnum("chainB"), False)], ("done",)))
+        script.append(("block", [jb], {}))
+        gi = 2
+    script += [("block", [call_op("u:5", "rule", "UpdateMasterRule", [["s", "chainG"], ["s", target], ["s", "r"]], tag="update_master_rule")], {}),
                ("rules", "chainG")]
     j = junk("pending")
     script += [("check", dict(tx=j["tx"], pdesc=j["pdesc"]), None)]
@@ -223,7 +285,31 @@ def gen_governed(r, nm, variant):
     if decision == "reject":
         j2["body"] = ("ibtp", ("done",))
     script.append(("block", [j2], {}))
-    return dict(cfg=dict(admins=4, gas=0, audit=False, bal="1000000000000000"), script=script, governed=decision)
+    if variant == "tighten":
+        script.append(("restart",))
+        script.append(("block", [junk("after_restart")], {}))
+    return dict(cfg=dict(admins=4, gas=0, audit=False, bal="1000000000000000", ledger=ledger), script=script, governed=variant)
+
+
+def gen_forged_receipts(nm, dst, pkind, proof_type=""):
+    """a request src -> dst is accepted and stays pending (status BEGIN, its id on the list timeout-<h>); then RECEIPTS
+    for it arrive whose proof check fails (absent / not the committed hash / refused or not understood by the
+    destination chain's master rule): alone in a block, next to an unrelated transaction, and twice in one block.
+    Nothing but nonce and fee of the sender may change - in particular not the transaction manager's timeout list,
+    which the executor's block post-processing (setTimeoutList) rewrites outside any transaction frame."""
+    script = [("pre", s) for s in seed_steps()] + [("pre", {"op": "fund", "acct": "u:%d" % u, "amt": "10000000000000"}) for u in range(3)]
+    script.append(("block", [], {}))
+    ids = X.Ids()
+    script.append(("block", [ibtp_op(nm, "u:0", "chainA", 1, "ok", dst=dst)], {}))
+
+    def forged(frm):
+        o = ibtp_op(nm, frm, "chainA", 1, pkind, typ=1, dst=dst, wasm_accept=False)
+        o["tag"] = "forged_receipt_%s_%s" % (dst, pkind)
+        return o
+    script.append(("block", [forged("u:1")], {}))
+    script.append(("block", [X.op_store_set(ids, "u:2", "k1", 7), forged("u:1")], {}))
+    script.append(("block", [forged("u:1"), forged("u:2"), X.op_store_set(ids, "u:0", "k2", 8)], {}))
+    return dict(cfg=dict(admins=4, gas=0, audit=False, bal="1000000000000000", proof=proof_type), script=script, forged=[dst, pkind, proof_type])
 
 
 def gen_parallel(nm, size):
@@ -265,6 +351,10 @@ def resolve_script(g):
             for op in item[1]:
                 adv = op.pop("maybe_advance", None)
                 op.pop("advance", None)
+                req = op.pop("receipt_of", None)
+                if req is not None:
+                    op["tx"]["ibtp"]["index"] = req["tx"]["ibtp"]["index"]
+                    continue
                 i = op["tx"].get("ibtp")
                 if not i or i["type"] != 0 or op["tx"].get("to"):
                     continue
@@ -323,6 +413,9 @@ def build_proof_rows(g, out, flagsets, ids):
             run.sh.apply_block(ob)
             continue
         ops = item[1]
+        if not ops and not ob.get("hang"):
+            run.sh.apply_block(ob)
+            continue
         if ob.get("hang") or ob.get("receipts") is None:
             rows.append((None, dict(block=si, problem="hang", tags=[o["tag"] for o in ops])))
             break
@@ -341,6 +434,39 @@ def build_proof_rows(g, out, flagsets, ids):
                     errs=[rc[1] for rc in ob["receipts"]])
         rows.append((row, info))
     return hist, rows
+
+
+def build_pool_row(g, out):
+    """the node history of the proof pool: commits (the records as seeded / read back), restarts, and every IBTP
+    transaction of a block as a question with the observed answer (accepted = no proof-check failure)"""
+    steps = out.get("steps") or []
+    world = World()
+    evs, nchecks, nacc = [], 0, 0
+    for si, item in enumerate(g["script"]):
+        if si >= len(steps):
+            break
+        ob = steps[si]
+        if item[0] == "pre":
+            world.seed(item[1])
+        elif item[0] == "rules":
+            world.readback(item[1], ob.get("rules"))
+        elif item[0] == "restart":
+            evs.append("HRestart")
+        elif item[0] == "block":
+            if item[1] and ob.get("receipts") is None:
+                break
+            evs.append("(HCommit %s %s)" % (world.gchains(), world.grules()))
+            for o, rc in zip(item[1], ob.get("receipts") or []):
+                d = o.get("pdesc")
+                if d is None:
+                    continue
+                acc = not (str(rc[1]).startswith("proof") or "proof verify failed" in str(rc[2]))
+                nchecks += 1
+                nacc += 1 if acc else 0
+                evs.append("(HCheck %s %s %s)" % (gibtp(d["ibtp"], d["pnum"], d["proofhash"]), gproof(d["proof"], d["pnum"]), gbool(acc)))
+    row = "{| hc_bxh := %s; hc_snapshot := %s; hc_memo := [false]; hc_evs := %s |}" % (
+        X.gNn(X.BXH), gbool(g["cfg"].get("ledger") == "complex"), glist(evs))
+    return row, dict(checks=nchecks, accepted=nacc, ledger=g["cfg"].get("ledger") or "simple", restarts=evs.count("HRestart"))
 
 
 PPRE = "From BX Require Import Base.Prelude Model.Fees Model.ExecFrame Model.ProofCheck.\nLocal Open Scope N_scope.\n"
@@ -520,8 +646,16 @@ def run(ctx):
     ids, nm = X.Ids(), Namer()
     if ctx.model_ok:
         pitems = [crash_corpus(nm)] + [gen_parallel(nm, size) for size in range(6, 14)]
-        gitems = [gen_governed(ctx.rng, nm, v) for v in (["reject", "approve"] if ctx.quick else ["reject", "approve"] * 6)]
+        gitems = [gen_governed(ctx.rng, nm, v, ledger=l) for v, l in
+                  ([("reject", ""), ("approve", "complex"), ("tighten", "complex"), ("tighten", "")] if ctx.quick else
+                   [(v, l) for v in ("reject", "approve", "tighten") for l in ("", "complex")] * 3)]
         pitems += gitems
+        uitems = [gen_rule_update(nm, l, ch, rs) for l in ("", "complex") for ch in ("rule_fabric", "rule_none", "rule_logouting", "unregistered", "trust")
+                  for rs in (False, True)]
+        pitems += uitems
+        fitems = [gen_forged_receipts(nm, dst, pk, pt) for dst, pk in (("chainB", "absent"), ("chainB", "mismatch"), ("chainF", "ok"), ("chainW", "ok"), ("chainN", "ok"))
+                  for pt in ("", "parallel")]
+        pitems += fitems
         pitems += [resolve_script(gen_proof_history(ctx.rng, ctx.quick, nm)) for _ in range(100 if ctx.quick else 1500)]
         mitems = gen_multisig(ctx.rng, ctx.quick, nm) + gitems        # the governed histories also contain direct CheckProof steps
         eitems = gen_entry(ctx.rng, ctx.quick)
@@ -532,10 +666,19 @@ def run(ctx):
             return ctx.finish(rule="-")
         po, mo, eo = outs[:len(pitems)], outs[len(pitems):len(pitems) + len(mitems)], outs[len(pitems) + len(mitems):]
         ctx.extra["governed_rule_histories"] = len(gitems)
+        ctx.extra["rule_update_histories"] = len(uitems)
+        ctx.extra["forged_receipt_histories"] = len(fitems)
         ctx.extra["parallel_grouping_blocks"] = sum(range(6, 14))
         # --- proof defects through block execution
         flat = []
         for g, out in zip(pitems, po):
+            if g["cfg"].get("ledger") == "complex":
+                # no raw dump of the complex state ledger (its trie has no hook): the frame of these histories is
+                # judged under the simple ledger only, their proof-check answers by judge_pool below; crashes still count
+                if out.get("crash") or out.get("killed"):
+                    ctx.violation("node crashed / hung while verifying or executing an IBTP (ledger.type=complex): %s" % out.get("panic"),
+                                  dict(property=PID, kind="pool", g=g, verdict=[2, 900], panic=out.get("panic"), site=out.get("site")))
+                continue
             hist, rows = build_proof_rows(g, out, xflagsets, ids)
             for row, info in rows:
                 flat.append((g, hist, out, row, info))
@@ -570,6 +713,26 @@ def run(ctx):
                 elif kind == "domain":
                     ctx.broken("correspondence:judge_proof(domain)", json.dumps(rep)[:800])
             ctx.extra["proof_distribution"] = kinds
+        # --- the proof pool over whole node histories (both ledger types, restarts)
+        hrows = [(g, out) + build_pool_row(g, out) for g, out in zip(pitems, po) if not out.get("crash")]
+        vs, msg = vlib.coq_judge_sharded("C03_pool", PPRE, "hcase", "judge_pool", [h[2] for h in hrows], shard=60)
+        if vs is None:
+            ctx.broken("correspondence:judge_pool", msg)
+        else:
+            dist = {}
+            for (g, out, row, info), v in zip(hrows, vs):
+                key = "%s/restarts=%d" % (info["ledger"], min(info["restarts"], 1))
+                dist[key] = dist.get(key, 0) + 1
+                ctx.count(case_key=json.dumps(["h", row[-300:], info]), nontrivial=0 < info["accepted"] < info["checks"],
+                          sample=dict(driver="execframe", kind="pool", info=info, verdict=v))
+                ctx.traces_validated += 1
+                rep = dict(property=PID, kind="pool", g=g, verdict=v, info=info)
+                if v[0] == 2:
+                    ctx.violation("an IBTP passed the proof check although the rule / validator set bound in the state committed by the previous "
+                                  "block does not accept its proof (ledger.type=%s)" % info["ledger"], rep)
+                elif v[0] != 0:
+                    ctx.broken("correspondence:judge_pool", "first differing history: replay=%s %s" % (X.save_mismatch(ctx, rep), json.dumps(rep)[:600]))
+            ctx.extra["pool_histories"] = dist
         # --- multisig differential
         mrows = []
         for g, out in zip(mitems, mo):
@@ -620,6 +783,8 @@ def run(ctx):
                            "proofs absent / hash-mismatching / fine, wrong indexes, foreign tx.To, rule and registration changes between blocks; "
                            "(b) direct CheckProof calls with real secp256k1 signatures over 0..7 validators x signer lists with duplicates, strangers, junk, signatures "
                            "over another digest; (c) histories over {IBTP tx, HandleIBTPData, EmitInterchain, InitServiceCache, restart}; "
+                           "(d) the proof pool over whole node histories under ledger.type simple and complex: binding changes (master rule by seeding and by the real "
+                           "UpdateMasterRule flow, rule removed / logouting, chain unregistered, trust root replaced) after an IBTP was verified, with and without restart; "
                            "non-trivial = (a) block with accepted and rejected IBTPs, (b) at least two signatures, (c) every history; distinct by content")
 
 
@@ -640,6 +805,9 @@ def replay(ctx, path):
     if obj["kind"] == "proof":
         hist, rows = build_proof_rows(g, outs[0], xflagsets, X.Ids())
         vs, msg = vlib.coq_judge_sharded("C03_proof_r", PPRE, "pcase", "judge_proof", [r for r, _ in rows if r is not None])
+    elif obj["kind"] == "pool":
+        row, info = build_pool_row(g, outs[0])
+        vs, msg = vlib.coq_judge_sharded("C03_pool_r", PPRE, "hcase", "judge_pool", [row])
     elif obj["kind"] == "verify":
         rows = build_verify_rows(g, outs[0])
         vs, msg = vlib.coq_judge_sharded("C03_verify_r", PPRE, "N * pdesc * N", "judge_verify", [r for r, _ in rows])
